@@ -4,8 +4,6 @@ package keyid
 //vsym:entry H02_keyid_is_this_requests_own_under_concurrent_requests
 //vsym:model encoding/json.Marshal t05Marshal
 //vsym:model encoding/json.Unmarshal t05Unmarshal
-//vsym:model encoding/json.NewEncoder t05NewEncoder
-//vsym:model (*encoding/json.Encoder).Encode t05Encode
 //vsym:include C05/s05.go
 //vsym:include C05/h05_text.go
 //vsym:include C05/h05_reentrant.go
